@@ -9,7 +9,7 @@ import (
 func TestProp(t *testing.T) {
 	r := evid.New(t, "C14", evid.Config{
 		Level: "exploration",
-		Rule:  "generated LogQL / TraceQL / profile queries; retranslate: a query translated >= 2 times with another query translated in between; reexec: >= 2 executions of one plan whose query has a stage with mutable planner state (regex line filter, by/without, labels-cache user, TraceQL condition/aggregator)",
+		Rule:  "generated LogQL / TraceQL / profile queries; retranslate: a query translated >= 2 times with another query translated in between; portions: the per-portion TraceQL schedule with >= 3 portions and cached trace ids on a later portion; reexec: >= 2 executions of one plan whose query has a stage with mutable planner state (regex line filter, by/without, labels-cache user, TraceQL condition/aggregator)",
 		Assumptions: []string{
 			"the statement of a fresh plan with the same parameters stands for 'the first execution with these time bounds' (fresh translations are deterministic: sub-check retranslate)",
 			"chsim executes the statements as ClickHouse would (only used when the re-executed text differs)",
@@ -17,5 +17,6 @@ func TestProp(t *testing.T) {
 	})
 	addRetranslate(r)
 	addReexec(r)
+	addPortions(r)
 	r.Main()
 }
